@@ -58,6 +58,33 @@ def neq_scan(F, f, e, param):
                     if any(x.startswith(param + '[') or x.startswith(param + '<Some>.0[') for x in sides) and any('.1' in x for x in sides):
                         return src, True
         return None
+    if e[0] == 'binop' and e[1] in ('Ne', 'Eq'):
+        # explicit loop: `for (i, b) in self.X.iter().enumerate() { if *b != param[i] { return Err } }`
+        for a, b in ((e[2], e[3]), (e[3], e[2])):
+            if not (a[0] == 'field' and a[2] == '1' and b[0] == 'index'):
+                continue
+            elem = a[1]
+            if not (b[2][0] == 'field' and b[2][2] == '0' and show(b[2][1]) == show(elem)):
+                continue
+            if access_path(b[1]) not in (param, param + '.<Some>'):
+                continue
+            nx = [x for x in walk(elem, inl=False) if x[0] == 'call' and x[1] == 'std::iter::Iterator::next']
+            if len(nx) != 1:
+                continue
+            it = mirq.init_of(nx[0][2][0])
+            src = access_path(it)
+            x = it
+            whole = True
+            while x[0] in ('call', 'cast'):
+                if x[0] == 'call':
+                    if x[4].get('name') not in ('iter', 'enumerate', 'into_iter', 'copied', 'cloned'):
+                        whole = False
+                        break
+                    x = x[2][0]
+                else:
+                    x = x[1]
+            if whole and src:
+                return src, e[1] == 'Ne', nx[0][3]
     if e[0] == 'call' and e[4].get('name') in ('ne', 'eq') and len(e[2]) == 2:
         a, b = access_path(e[2][0]), access_path(e[2][1])
         if param in (a, b) or (param + '.<Some>') in (a, b):
@@ -85,10 +112,21 @@ def r1(cx, rec):
         for prm in (hp, ip):
             r = neq_scan(F, V, e, prm)
             if r:
-                fld, differs = r
+                fld, differs = r[0], r[1]
                 tt, ff = be
                 same_edge = ff if differs else tt
-                dom = [b for b in oks if b in V.only_via_edge((sb, same_edge))]
+                diff_edge = tt if differs else ff
+                if len(r) == 3:
+                    # element-wise loop: an Ok exit is covered when it is reached only after the iterator is
+                    # exhausted and never from the "differs" edge
+                    none_t = [t for s2, t in V.outcome_edges(r[2]).get('none', [])]
+                    after = set()
+                    for s2, t in V.outcome_edges(r[2]).get('none', []):
+                        after |= V.only_via_edge((s2, t)) | {t}
+                    bad = V.reach_from(diff_edge)
+                    dom = [b for b in oks if b in after and b not in bad] if none_t else []
+                else:
+                    dom = [b for b in oks if b in V.only_via_edge((sb, same_edge))]
                 got.setdefault(prm, []).append((sb, fld, dom))
                 rec.site(V, sb, 'Ok requires %s == %s (dominates %d/%d Ok exits)' % (fld, prm, len(dom), len(oks)))
     h = got.get(hp, [])
